@@ -425,7 +425,10 @@ def main(prop, tier, seed, jobs=None, update_baseline=False):
             continue
         reported = False
         last_path = None
-        for i, fl in enumerate(new_fail[:6]):
+        # a machine-level refutation is turned into a witness by a budgeted search for a legal event history: two
+        # counterexamples-to-induction per obligation are tried, not six
+        ntry = 2 if str((o.get("meta") or {}).get("replay", {}).get("driver", "")).startswith("mailbox_history") else 6
+        for i, fl in enumerate(new_fail[:ntry]):
             o2 = dict(o)
             o2["cex"], o2["detail"] = fl["cex"], fl["detail"]
             path, reproduced, out = native_replay(prop, name + (f"__{i}" if i else ""), info, o2, outdir)
